@@ -6,17 +6,20 @@
    follower's snapshot boundary (lastSnapIdx, lastSnapTerm), taken from the FSM goroutine's last
    applied entry, then names an entry that is no ancestor of the follower's log any more, and the
    handler's snapshot-boundary check (prevLogIndex == lastSnapIdx, the "fix:" commit) accepts a
-   request that continues the OLD branch.  Five servers, one configuration:
+   request that continues the OLD branch.  Five servers, one configuration (scenario adapted to the
+   commit rule after the fix: commit, commitIndex <= index of the last entry of the accepted request:
+   the follower can only be made to apply entries it shares with the sender of the request):
 
-     server 1 = A and server 3 hold 1,2,3 (term 1); servers 2,4,5 hold entry 1; server 2 starts with
-     v_commit = 1000.
-     2 is elected in term 2 by 4 and 5 (no-op at index 2), tells A "commit 1000" with an empty
-     request: A applies 1..3; A takes a snapshot: boundary (3, term 1).
-     2 appends 3', 4' (term 2) and replicates 2',3',4' to A: A truncates 2..3 (conflict) and stores them.
-     3 is elected in term 3 by 4 and 5 (whose logs are short) and writes its no-op at index 4.
-     3 sends prev = (3, term 1), [4 (term 3)] to A: index 3 is not A's last index, but it IS A's
-     snapshot index and the terms agree: accepted; A replaces 4' by 4.
-     Now A = 1, 2', 3', 4 and server 3 = 1, 2, 3, 4: the same entry at index 4, different ones at 3. *)
+     every server holds entry 1; server 2 starts with v_commit = 1000; server 1 = A.
+     2 is elected in term 2 by 4 and 5 (no-op 2'), appends 3', 4' (term 2) and replicates 2',3',4' to A
+     with "commit 1000": A commits and applies 2..4 (held by 2 and A only); A takes a snapshot:
+     boundary (4, term 2).
+     3 is elected in term 3 by 4 and 5 (whose logs are short), writes 2,3,4,5 (term 3) and replicates
+     them to A: A truncates 2'..4' (conflict) and stores 2..5.  A heartbeat of 3 makes 2 a follower.
+     2 is elected in term 4 by 4 and 5 and writes its no-op at index 5.
+     2 sends prev = (4, term 2), [5 (term 4)] to A: index 4 is not A's last index, but it IS A's
+     snapshot index and the terms agree: accepted; A replaces 5 (term 3) by 5 (term 4).
+     Now A = 1, 2, 3, 4, 5'' and server 2 = 1, 2', 3', 4', 5'': the same entry at index 5, different ones at 4. *)
 From Coq Require Import List NArith Bool Lia.
 From stdpp Require Import gmap.
 From RaftModel Require Import Base Config Compaction Commitment Node NodeCodec Candidate Leader Replicate Cluster ClusterLog.
@@ -53,17 +56,21 @@ Qed.
 (* ---------------------------------------------------------------- the scenario *)
 Definition cex_nodes : list gnode :=
   map (fun n => if gn_id n =? 2 then bump_commit 1000 n else n)
-      (map (fun p => mk_node (mk_cfg 5) (N.of_nat (fst p)) (snd p)) (combine (seq 1 5) [2; 0; 2; 0; 0])).
+      (map (fun p => mk_node (mk_cfg 5) (N.of_nat (fst p)) (snd p)) (combine (seq 1 5) [0; 0; 0; 0; 0])).
 
 Definition cex_g0 : lgstate := mkLG (mkG cex_nodes [] [] []) [].
 
 Definition cex_labels : list llabel :=
   [LElect (GTimeout 2); LElect (GVoteReq 2 4 0 []); LElect (GVoteResp 2 4); LElect (GVoteReq 2 5 0 []); LElect (GVoteResp 2 5);
-   LSend 2 1 1 0; LDeliver 0 0 []; LElect (GInput 1 NSnapshot 0 []);
-   LPropose 2 LogCommand 77 []; LPropose 2 LogCommand 78 []; LSend 2 1 2 4; LDeliver 1 0 [];
+   LPropose 2 LogCommand 77 []; LPropose 2 LogCommand 78 []; LSend 2 1 2 4; LDeliver 0 0 [];
+   LElect (GInput 1 NSnapshot 0 []);
    LElect (GTimeout 3); LElect (GTimeout 3); LElect (GVoteReq 3 4 0 []); LElect (GVoteResp 3 4);
    LElect (GVoteReq 3 5 0 []); LElect (GVoteResp 3 5);
-   LSend 3 1 4 4; LDeliver 2 0 []].
+   LPropose 3 LogCommand 87 []; LPropose 3 LogCommand 88 []; LPropose 3 LogCommand 89 [];
+   LSend 3 1 2 5; LDeliver 1 0 [];
+   LHeartbeat 3 2; LDeliver 2 0 [];
+   LElect (GTimeout 2); LElect (GVoteReq 2 4 0 []); LElect (GVoteResp 2 4); LElect (GVoteReq 2 5 0 []); LElect (GVoteResp 2 5);
+   LSend 2 1 5 5; LDeliver 3 0 []].
 
 Lemma cex_init_ok : linit_ok cex_g0.
 Proof.
@@ -115,10 +122,10 @@ Theorem log_matching_with_snapshots_refuted :
     quorums_intersect cfgs /\ linit_ok g0 /\ lrun true cfgs g0 ls = Some g /\ ~ log_matching g.
 Proof.
   exists [mk_cfg 5], cex_g0, cex_labels.
-  assert (H : exists g, lrun true [mk_cfg 5] cex_g0 cex_labels = Some g /\ lm_violation g 1 3 4 3 = true).
+  assert (H : exists g, lrun true [mk_cfg 5] cex_g0 cex_labels = Some g /\ lm_violation g 1 2 5 4 = true).
   { destruct (lrun true [mk_cfg 5] cex_g0 cex_labels) as [g|] eqn:E.
     - exists g. split; [reflexivity|].
-      assert (Hc : match lrun true [mk_cfg 5] cex_g0 cex_labels with Some g => lm_violation g 1 3 4 3 | None => false end = true)
+      assert (Hc : match lrun true [mk_cfg 5] cex_g0 cex_labels with Some g => lm_violation g 1 2 5 4 | None => false end = true)
         by (vm_compute; reflexivity).
       rewrite E in Hc. exact Hc.
     - exfalso.
